@@ -2,10 +2,117 @@
 #![allow(unused_imports, unused_variables)]
 use crate::show;
 use crate::sx::{self, Ctx};
+use tls_parser::nom::IResult;
+use nom_derive::Parse;
 use tls_parser::*;
 
+macro_rules! p {
+    ($ctx:expr, $r:expr, $f:expr) => {{
+        let r = $r;
+        if let Ok((_, v)) = &r {
+            let _ = format!("{:?}", v);
+        }
+        show::res($ctx, r, $f)
+    }};
+}
+/// for value types without Debug
+macro_rules! q {
+    ($ctx:expr, $r:expr, $f:expr) => {{
+        show::res($ctx, $r, $f)
+    }};
+}
+
+fn ext1(i: &[u8], f: fn(&[u8]) -> IResult<&[u8], TlsExtension>) -> String {
+    let ctx = &Ctx::of(i);
+    let r = f(i);
+    if let Ok((_, v)) = &r {
+        let _ = format!("{:?}", v);
+        let _ = format!("{:?}", TlsExtensionType::from(v));
+    }
+    show::res(ctx, r, show::ext)
+}
+fn extn(i: &[u8], f: fn(&[u8]) -> IResult<&[u8], Vec<TlsExtension>>) -> String {
+    let ctx = &Ctx::of(i);
+    p!(ctx, f(i), show::exts)
+}
+
 pub fn run_entry(name: &str, a: &[u64], i: &[u8]) -> Option<String> {
-    None
+    let ctx = &Ctx::of(i);
+    let u = |k: usize| -> usize { a.get(k).copied().unwrap_or(0) as usize };
+    Some(match name {
+        "parse_tls_extension" => ext1(i, parse_tls_extension),
+        "parse_tls_client_hello_extension" => ext1(i, parse_tls_client_hello_extension),
+        "parse_tls_server_hello_extension" => ext1(i, parse_tls_server_hello_extension),
+        "parse_tls_extensions" => extn(i, parse_tls_extensions),
+        "parse_tls_client_hello_extensions" => extn(i, parse_tls_client_hello_extensions),
+        "parse_tls_server_hello_extensions" => extn(i, parse_tls_server_hello_extensions),
+        "parse_tls_extension_unknown" => ext1(i, parse_tls_extension_unknown),
+        "parse_tls_extension_sni_hostname" => p!(ctx, parse_tls_extension_sni_hostname(i), |c, v| sx::c("", &[sx::n(v.0 .0), sx::slice(c, v.1)])),
+        "parse_tls_extension_sni_content" => ext1(i, parse_tls_extension_sni_content),
+        "parse_tls_extension_max_fragment_length_content" => ext1(i, parse_tls_extension_max_fragment_length_content),
+        "parse_tls_extension_elliptic_curves_content" => ext1(i, parse_tls_extension_elliptic_curves_content),
+        "parse_tls_extension_ec_point_formats_content" => ext1(i, parse_tls_extension_ec_point_formats_content),
+        "parse_tls_extension_signature_algorithms_content" => ext1(i, parse_tls_extension_signature_algorithms_content),
+        "parse_tls_extension_heartbeat_content" => ext1(i, parse_tls_extension_heartbeat_content),
+        "parse_tls_extension_alpn_content" => ext1(i, parse_tls_extension_alpn_content),
+        "parse_tls_extension_signed_certificate_timestamp_content" => ext1(i, parse_tls_extension_signed_certificate_timestamp_content),
+        "parse_tls_extension_psk_key_exchange_modes_content" => ext1(i, parse_tls_extension_psk_key_exchange_modes_content),
+        "parse_tls_extension_renegotiation_info_content" => ext1(i, parse_tls_extension_renegotiation_info_content),
+        "parse_tls_extension_encrypted_server_name" => ext1(i, parse_tls_extension_encrypted_server_name),
+        "parse_tls_extension_sni" => ext1(i, parse_tls_extension_sni),
+        "parse_tls_extension_max_fragment_length" => ext1(i, parse_tls_extension_max_fragment_length),
+        "parse_tls_extension_status_request" => ext1(i, parse_tls_extension_status_request),
+        "parse_tls_extension_elliptic_curves" => ext1(i, parse_tls_extension_elliptic_curves),
+        "parse_tls_extension_ec_point_formats" => ext1(i, parse_tls_extension_ec_point_formats),
+        "parse_tls_extension_signature_algorithms" => ext1(i, parse_tls_extension_signature_algorithms),
+        "parse_tls_extension_heartbeat" => ext1(i, parse_tls_extension_heartbeat),
+        "parse_tls_extension_encrypt_then_mac" => ext1(i, parse_tls_extension_encrypt_then_mac),
+        "parse_tls_extension_extended_master_secret" => ext1(i, parse_tls_extension_extended_master_secret),
+        "parse_tls_extension_session_ticket" => ext1(i, parse_tls_extension_session_ticket),
+        "parse_tls_extension_key_share" => ext1(i, parse_tls_extension_key_share),
+        "parse_tls_extension_pre_shared_key" => ext1(i, parse_tls_extension_pre_shared_key),
+        "parse_tls_extension_early_data" => ext1(i, parse_tls_extension_early_data),
+        "parse_tls_extension_supported_versions" => ext1(i, parse_tls_extension_supported_versions),
+        "parse_tls_extension_cookie" => ext1(i, parse_tls_extension_cookie),
+        "parse_tls_extension_psk_key_exchange_modes" => ext1(i, parse_tls_extension_psk_key_exchange_modes),
+        "parse_named_groups" => p!(ctx, parse_named_groups(i), |_c, l| sx::list(l, |g| sx::n(g.0))),
+
+        "parse_dh_params" => p!(ctx, parse_dh_params(i), show::dh),
+        "parse_ec_parameters" => p!(ctx, parse_ec_parameters(i), show::ecp),
+        "parse_ecdh_params" => p!(ctx, parse_ecdh_params(i), show::ecdh),
+        "parse_digitally_signed_old" => p!(ctx, parse_digitally_signed_old(i), show::ds),
+        "parse_digitally_signed" => p!(ctx, parse_digitally_signed(i), show::ds),
+        "parse_content_and_signature_dh" => p!(ctx, parse_content_and_signature(i, parse_dh_params, u(0) != 0),
+            |c, v| sx::c("", &[show::dh(c, &v.0), show::ds(c, &v.1)])),
+        "parse_content_and_signature_ecdh" => p!(ctx, parse_content_and_signature(i, parse_ecdh_params, u(0) != 0),
+            |c, v| sx::c("", &[show::ecdh(c, &v.0), show::ds(c, &v.1)])),
+        "parse_ct_signed_certificate_timestamp" => p!(ctx, parse_ct_signed_certificate_timestamp(i), show::sct),
+        "parse_ct_signed_certificate_timestamp_list" => p!(ctx, parse_ct_signed_certificate_timestamp_list(i), |c, l| sx::list(l, |s| show::sct(c, s))),
+        "ECPoint::parse" => p!(ctx, ECPoint::parse(i), |c, v| sx::slice(c, v.point)),
+        "ECCurve::parse" => p!(ctx, ECCurve::parse(i), |c, v| sx::c("", &[sx::slice(c, v.a), sx::slice(c, v.b)])),
+        "ExplicitPrimeContent::parse" => p!(ctx, ExplicitPrimeContent::parse(i), |c, v| sx::c("ExplicitPrime", &[
+            sx::slice(c, v.prime_p), sx::slice(c, v.curve.a), sx::slice(c, v.curve.b), sx::slice(c, v.base.point),
+            sx::slice(c, v.order), sx::slice(c, v.cofactor)])),
+        "ECParametersContent::parse" => p!(ctx, ECParametersContent::parse(i, ECCurveType(u(0) as u8)), show::ecc),
+
+        "parse_dtls_record_header" => p!(ctx, parse_dtls_record_header(i), show::dhdr),
+        "parse_dtls_message_handshake" => p!(ctx, parse_dtls_message_handshake(i), |c, m| { let _ = m.is_fragment(); show::dmsg(c, m) }),
+        "parse_dtls_message_changecipherspec" => p!(ctx, parse_dtls_message_changecipherspec(i), show::dmsg),
+        "parse_dtls_message_alert" => p!(ctx, parse_dtls_message_alert(i), show::dmsg),
+        "parse_dtls_record_with_header" => {
+            let h = DTLSRecordHeader {
+                content_type: TlsRecordType(u(0) as u8),
+                version: TlsVersion(u(1) as u16),
+                epoch: u(2) as u16,
+                sequence_number: a.get(3).copied().unwrap_or(0),
+                length: u(4) as u16,
+            };
+            p!(ctx, parse_dtls_record_with_header(i, &h), show::dmsgs)
+        }
+        "parse_dtls_plaintext_record" => p!(ctx, parse_dtls_plaintext_record(i), show::dplain),
+        "parse_dtls_plaintext_records" => p!(ctx, parse_dtls_plaintext_records(i), |c, l| sx::list(l, |x| show::dplain(c, x))),
+        _ => return None,
+    })
 }
 
 pub fn run_history(name: &str, toks: &[String]) -> String {
